@@ -66,6 +66,9 @@ class C09(vlib.Spec):
     def nontrivial(self, case, res):
         return algebra.nontrivial(case, res)
 
+    def coverage_extra(self, cases, results):
+        return {"release_probe": getattr(self, "release_summary", None)}
+
     def distribution(self, cases, results):
         d = algebra.distribution(cases, results)
         d["release_probe"] = getattr(self, "release_summary", None)
